@@ -34,6 +34,7 @@ class Executor(ExprMixin, ContainerMixin, CallMixin, StmtMixin, ObjectMixin):
         self.family = family
         self.obligations: list[Obligation] = []
         self.assumed_external: set = set()
+        self.only_variant = None
         self.loop_counter = 0
         self.variant = ""
         self.cur_site = ""
@@ -165,7 +166,9 @@ class Executor(ExprMixin, ContainerMixin, CallMixin, StmtMixin, ObjectMixin):
             if n not in c.params:
                 raise Unsupported(f"parameter {n} of the real function has no typed() clause")
         alts = [[(n, t) for t in c.params[n]] for n in names]
-        for combo in itertools.product(*alts):
+        for k, combo in enumerate(itertools.product(*alts)):
+            if self.only_variant is not None and k != self.only_variant:
+                continue
             self.variant = self.family + ":" + ",".join(t for n, t in combo if len(c.params[n]) > 1)
             self.loop_counter = 0
             self.run_variant(dict(combo))
@@ -303,7 +306,16 @@ class Executor(ExprMixin, ContainerMixin, CallMixin, StmtMixin, ObjectMixin):
         pass
 
 
-def verify_function(src: Source, qual: str) -> dict:
+def n_variants(qual: str) -> list:
+    """[(family, variant index)] of a contract: the units of parallel work."""
+    c = REGISTRY[qual]
+    n = 1
+    for alts in c.params.values():
+        n *= max(1, len(alts))
+    return [(f, k) for f in c.families for k in range(n)]
+
+
+def verify_function(src: Source, qual: str, family=None, variant=None) -> dict:
     """Generate all VCs of `qual` from the current source.  Returns a dict with obligations
     (still carrying z3 terms) or an out-of-reach reason."""
     c = REGISTRY[qual]
@@ -313,7 +325,10 @@ def verify_function(src: Source, qual: str) -> dict:
     obs: list[Obligation] = []
     try:
         for fam in c.families:
+            if family is not None and fam != family:
+                continue
             ex = Executor(src, qual, c, fam)
+            ex.only_variant = variant
             obs += ex.run()
     except Unsupported as e:
         return {"qual": qual, "out_of_reach": str(e), "obligations": [], "hash": src.fhash(fd)}
